@@ -25,7 +25,7 @@ TECHNIQUE = ("model-based (stateful) testing: histories of flow_mods, packets, v
              "requests run against the switch and an independent OpenFlow 1.0 table model in lock-step; exhaustive short "
              "histories over a reduced alphabet plus Hypothesis-generated long ones")
 LEVEL_TEXT = ("Exploration by generated histories. Every history of length <= 2 (quick) / <= 3 (thorough) over a reduced alphabet "
-              "of 44 operations and of length 3 / 4 over its 16-op core is enumerated, with and without the ExpireMixin timer; Hypothesis adds histories of up to 40 / 60 "
+              "of 51 operations and of length 3 / 4 over its 17-op core is enumerated, with and without the ExpireMixin timer; Hypothesis adds histories of up to 40 / 60 "
               "operations over the full alphabet. After every step the table (contents, counters, order) and every message sent "
               "are compared with the reference model under a virtual clock with dyadic instants, so there is no tolerance. The "
               "space of histories is infinite: this is dense search, not a proof.")
@@ -50,14 +50,18 @@ ASSUMPTIONS = [
   "when both timeouts have expired either reason is accepted",
   "with several matching entries of equal priority any may take the packet; the model follows the switch's choice",
   "two entries overlap (CHECK_OVERLAP) iff a single packet may match both and their priorities are equal (section 4.6)",
+  "a flow_mod (ADD / MODIFY / MODIFY_STRICT) whose action list contains a type the switch cannot execute (a vendor action, or "
+  "OFPAT_STRIP_VLAN when SwitchFeatures disable it) must be refused with OFPET_BAD_ACTION/OFPBAC_BAD_TYPE or "
+  "OFPET_FLOW_MOD_FAILED/OFPFMFC_UNSUPPORTED carrying the request's xid, and change nothing; when the command is refusable for "
+  "another reason as well, either error is accepted; a DELETE carrying such an action may be executed or refused (followed)",
   "all instants are dyadic (multiples of 1/8 s), so durations are exact",
   "frames are well formed; byte counters count the bytes of the frame as received",
 ]
 EXHAUSTIVE_SCOPE = {
-  "quick": "all histories of length 1 and 2 over the reduced alphabet (44 ops: 20 ADD variants incl. four CHECK_OVERLAP pairs that differ only in a zero-valued field, 4 MODIFY / MODIFY_STRICT, 7 DELETE / DELETE_STRICT, "
-           "3 packets, 5 advances, a direct sweep, 4 stats requests) and all histories of length 3 over its 16-op core, "
+  "quick": "all histories of length 1 and 2 over the reduced alphabet (51 ops: 22 ADD variants incl. four CHECK_OVERLAP pairs that differ only in a zero-valued field, 4 MODIFY / MODIFY_STRICT, 7 DELETE / DELETE_STRICT, "
+           "3 packets, 5 advances, a direct sweep, 4 stats requests) and all histories of length 3 over its 17-op core, "
            "each x {timer off, ExpireMixin timer on}",
-  "thorough": "all histories of length <= 3 over the same alphabet and all histories of length 4 over its 16-op core, each x {timer off, timer on}",
+  "thorough": "all histories of length <= 3 over the same alphabet and all histories of length 4 over its 17-op core, each x {timer off, timer on}",
 }
 
 _BOOTED = False
@@ -142,7 +146,14 @@ LATTICE += [
 ]
 LATTICE_RAW = [M.pack_match(m) for m in LATTICE]
 
-ACTS = [[4], [5], [6], [7], [4, 5], []]            # output ports of the action list
+# action lists: an int is an output to that port; "V" is a vendor action (no switch here can execute it);
+# "S" is OFPAT_STRIP_VLAN (executable unless the case disables it through SwitchFeatures)
+ACTS = [[4], [5], [6], [7], [4, 5], [], [4, "V"], ["V"], ["S", 5], [6, "S"]]
+_BAD_ACTION_ERRORS = ((W.OFPET_BAD_ACTION, W.OFPBAC_BAD_TYPE), (W.OFPET_FLOW_MOD_FAILED, W.OFPFMFC_UNSUPPORTED))
+
+
+def _action_bytes(acts):
+  return b"".join(W.action_vendor() if a == "V" else (W.action_strip_vlan() if a == "S" else W.action_output(a)) for a in acts)
 N_PORTS = 8
 CMD_NAMES = ["add", "modify", "modify_strict", "delete", "delete_strict"]
 
@@ -195,11 +206,18 @@ REDUCED = [
   _fm(0, 17, 2, flags=CHK, act=0), _fm(0, 18, 2, flags=CHK, act=1),
   _fm(0, 19, 2, flags=CHK, act=0), _fm(0, 20, 2, flags=CHK, act=1),
   _fm(0, 21, 2, flags=CHK, act=0), _fm(0, 22, 2, flags=CHK, act=1),
+  _fm(1, 2, 1, act=6),                 # 44: MODIFY with an action the switch cannot execute
+  _fm(2, 3, 1, act=7),                 # 45: MODIFY_STRICT ditto
+  _fm(0, 3, 1, flags=SFR, act=6),      # 46: ADD ditto (would replace)
+  _fm(3, 2, act=7),                    # 47: DELETE carrying one
+  _fm(4, 3, 1, act=6),                 # 48: DELETE_STRICT carrying one
+  _fm(2, 3, 1, act=8),                 # 49: MODIFY_STRICT with strip_vlan (executable unless disabled)
+  _fm(0, 2, 1, act=9),                 # 50: ADD with strip_vlan
 ]
 
 
 # the core of the alphabet, for exhaustive histories of length 3 in the quick tier
-CORE = [REDUCED[i] for i in (0, 1, 2, 6, 9, 11, 13, 16, 17, 19, 24, 25, 26, 27, 28, 32)]
+CORE = [REDUCED[i] for i in (0, 1, 2, 6, 9, 11, 13, 16, 17, 19, 24, 25, 26, 27, 28, 32, 44)]
 
 
 # --------------------------------------------------------------------------- observing the switch
@@ -244,6 +262,11 @@ def _outs(actions):
   return [a[1] for a in W.parse_actions(actions) if a[0] == "output"]
 
 
+def _alist(actions):
+  """[port | ("other", type)] in order: the shape _observe() reports"""
+  return [a[1] if a[0] == "output" else ("other", a[1]) for a in W.parse_actions(actions)]
+
+
 def _kname(key):
   return "%s@%d" % (", ".join("%s=%r" % (f, v) for f, v in key[0] if v is not None) or "any", key[1])
 
@@ -255,6 +278,16 @@ def _zero_sibling(a, b):
   return len(diff) == 1 and ea[diff[0]] is not None and eb[diff[0]] is not None and 0 in (ea[diff[0]], eb[diff[0]])
 
 
+def _features_without_strip_vlan():
+  """The default feature set of SoftwareSwitch with OFPAT_STRIP_VLAN switched off."""
+  import pox.datapaths.switch as SW
+  f = SW.SwitchFeatures()
+  f.cap_flow_stats = f.cap_table_stats = f.cap_port_stats = True
+  for name in f._act_info:
+    setattr(f, name, name not in ("act_vendor", "act_strip_vlan"))
+  return f
+
+
 class _Stop(Exception):
   pass
 
@@ -262,8 +295,13 @@ class _Stop(Exception):
 class _Run(object):
   def __init__(self, case, out):
     self.case, self.out = case, out
-    self.sw = TableSwitch(ports=N_PORTS, expire=bool(case.get("expire")),
-                          **({"max_entries": case["max_entries"]} if case.get("max_entries") else {}))
+    kw = {}
+    if case.get("max_entries"):
+      kw["max_entries"] = case["max_entries"]
+    if case.get("no_strip_vlan"):
+      kw["features"] = _features_without_strip_vlan()
+      out.label("strip-vlan-disabled")
+    self.sw = TableSwitch(ports=N_PORTS, expire=bool(case.get("expire")), **kw)
     self.ref = T.RefTable(max_entries=case.get("max_entries") or None)
     self.t_boot = self.sw.now
     self.xid = 10
@@ -299,7 +337,7 @@ class _Run(object):
         self.fail("table-extra-entry", "unexpected entry %s; expected %s" % (_kname(k), [_kname(x) for x in want]), cmd=cmd)
     for k, r in seen.items():
       e = want[k]
-      for field, got, exp in (("actions", r["outs"], _outs(e.actions)), ("idle_timeout", r["idle"], e.idle),
+      for field, got, exp in (("actions", r["outs"], _alist(e.actions)), ("idle_timeout", r["idle"], e.idle),
                               ("hard_timeout", r["hard"], e.hard), ("flags", r["flags"], e.flags),
                               ("packet_count", r["packets"], e.packets), ("byte_count", r["bytes"], e.bytes)):
         if got != exp:
@@ -328,7 +366,11 @@ class _Run(object):
           self.fail("error-missing", "expected an error %r, switch sent %r" % (ex, got), cmd=cmd,
                     code=sorted(ex["codes"])[0] if ex["codes"] else None, detail=ex.get("detail"))
         got.remove(found)
-        if found["etype"] != ex["etype"] or (ex["codes"] is not None and found["code"] not in ex["codes"]):
+        if "alts" in ex:
+          if not any(found["etype"] == t and (c is None or found["code"] in c) for t, c in ex["alts"]):
+            self.fail("error-code", "error type/code %d/%d, expected one of %r" % (found["etype"], found["code"], ex["alts"]),
+                      cmd=cmd, got=[found["etype"], found["code"]], detail=ex.get("detail"))
+        elif found["etype"] != ex["etype"] or (ex["codes"] is not None and found["code"] not in ex["codes"]):
           self.fail("error-code", "error type/code %d/%d, expected type %d code in %r" % (
               found["etype"], found["code"], ex["etype"], ex["codes"]), cmd=cmd, got=[found["etype"], found["code"]])
         if found["xid"] != ex["xid"]:
@@ -377,7 +419,8 @@ class _Run(object):
     if cmd != 0:
       flags &= ~EMG
     acts = ACTS[op["act"] % len(ACTS)]
-    actions = b"".join(W.action_output(p) for p in acts)
+    actions = _action_bytes(acts)
+    bad = "V" in acts or ("S" in acts and bool(self.case.get("no_strip_vlan")))
     self.xid += 1
     cookie = 0x1000 + self.step
     if mi in EXACT_PRIO:
@@ -400,7 +443,15 @@ class _Run(object):
     self.check_swallowed()
     got = self.sw.replies()
     refused = any(g.get("kind") == "error" and g["etype"] == W.OFPET_FLOW_MOD_FAILED and g["code"] == W.OFPFMFC_OVERLAP for g in got)
+    fm["bad_action"] = bad
+    fm["bad_refused"] = any(g.get("kind") == "error" and (g["etype"], g["code"]) in _BAD_ACTION_ERRORS for g in got)
     expected = self.ref.flow_mod(self.sw.now, fm, refused=refused)
+    if bad:
+      self.out.label("unsupported-action-" + name)
+      if cmd in (1, 2) and sel is None:
+        sel = [e for e in before.values() if e.canon == M.canon(LATTICE[mi]) and e.priority == op["prio"]]
+      if cmd in (1, 2) and sel:
+        self.out.label("unsupported-action-modify-hits-installed")
     if expected and expected[0].get("detail") == "exact-vs-wildcard":
       self.out.label("overlap-exact-vs-wildcard-refused")
     after = self.ref.by_key()
@@ -408,7 +459,7 @@ class _Run(object):
     self.out.label("fm-" + name)
     if expected and expected[0]["kind"] == "error":
       c = expected[0]["codes"]
-      self.out.label("expect-error-" + ({0: "full", 1: "overlap", 3: "bad-emerg"}.get(sorted(c)[0], "x") if c else "emerg-unsupported"))
+      self.out.label("expect-error-bad-action" if expected[0].get("detail") == "bad-action" else "expect-error-" + ({0: "full", 1: "overlap", 3: "bad-emerg"}.get(sorted(c)[0], "x") if c else "emerg-unsupported"))
     if cmd == 0 and had_identical and not expected:
       self.out.nontrivial = True
       self.out.label("replace-on-add")
@@ -477,7 +528,7 @@ class _Run(object):
         self.out.label("pkt-refreshes-idle")
       self.ref.touch(e, len(frame), self.sw.now)
       ports = sorted(p for p, _ in emitted)
-      want = sorted(p for p in _outs(e.actions) if p != port)
+      want = sorted(p for p in _outs(e.actions) if p != port)      # non-output actions (strip_vlan) move nothing
       if ports != want:
         self.fail("packet-output", "entry %s has outputs %r, frame left on ports %r" % (_kname(k), _outs(e.actions), ports))
       if pins:
@@ -641,6 +692,9 @@ def enum_histories(maxlen, alphabet=None, minlen=1):
     for ops in itertools.product(alphabet or REDUCED, repeat=n):
       for expire in (False, True):
         yield {"ops": list(ops), "expire": expire}
+      if any(o["op"] == "fm" and "S" in ACTS[o["act"]] for o in ops):
+        # the same history on a switch whose SwitchFeatures disable OFPAT_STRIP_VLAN
+        yield {"ops": list(ops), "expire": False, "no_strip_vlan": True}
 
 
 # --------------------------------------------------------------------------- Hypothesis
@@ -675,6 +729,7 @@ def _history(maxlen):
     "ops": st.integers(6, maxlen).flatmap(lambda n: st.lists(_op(), min_size=n, max_size=n)),
     "expire": st.booleans(),
     "max_entries": st.sampled_from([0, 0, 0, 2, 4]),
+    "no_strip_vlan": st.sampled_from([False, False, True]),
   })
 
 
